@@ -21,7 +21,7 @@ impl Check for C03 {
     fn total_cases(&self, tier: Tier) -> u64 {
         match tier {
             Tier::Quick => 150_000,
-            Tier::Thorough => 3_000_000,
+            Tier::Thorough => 8_000_000,
         }
     }
     fn strategy(&self, _tier: Tier) -> BoxedStrategy<MCase> {
